@@ -203,7 +203,9 @@ def tr_activation(ev: ast.Module) -> str:
     evc = find_class(ev, "Evaluator")
     se = ast.unparse(find_func(evc.body, "sub_evaluator"))
     sa = ast.unparse(find_func(evc.body, "set_activation"))
-    out.append(f"def macroEvaluatorIsLocal : Bool := {lean_bool('nested.local_scope = True' in se and 'Evaluator(ast, activation=self.activation)' in se)}")
+    import re as _re
+    m = _re.search(r"(\w+) = Evaluator\(ast, activation=self\.activation\)", se)
+    out.append(f"def macroEvaluatorIsLocal : Bool := {lean_bool(bool(m) and (m.group(1) + '.local_scope = True') in se and ('return ' + m.group(1)) in se)}")
     out.append(f"def localScopeUsesNestedActivation : Bool := {lean_bool('if self.local_scope:' in sa and 'self.activation = self.base_activation.nested_activation(vars=values)' in sa)}")
     out.append(f"def topLevelLoadsIntoClone : Bool := {lean_bool('self.activation = self.base_activation.clone()' in sa and 'self.activation.identifiers.load_values(values)' in sa)}")
     bm = ast.unparse(find_func(evc.body, "build_macro_eval")) + ast.unparse(find_func(evc.body, "build_ss_macro_eval"))
